@@ -903,6 +903,10 @@ class GenFunctions(object):
                     function._overloaded = True
                     if not function.fmtdict.inlocal("function_suffix"):
                         function.fmtdict.function_suffix = "_{}".format(i)
+            elif overloads[0]._cxx_overload:
+                # Overloads a function template.
+                # Part of its generic interface, needs a Fortran wrapper.
+                overloads[0]._overloaded = True
 
         # return_this
         ordered2 = []
